@@ -105,10 +105,13 @@ def gen_plan(rng, index, tier):
             plan["end"] = rng.randint(0, n)
         else:
             plan["end"] = n + rng.randint(1, 3)  # range reaching past the last frame
+        # an image-sequence video whose frames are not all the size the container reports (frame 0's)
+        plan["two_sizes"] = rng.random() < 0.2
     else:
         plan["two_sizes"] = rng.random() < 0.4
         plan["shuffle_seed"] = rng.randrange(1 << 30)
         plan["empty_lf"] = rng.random() < 0.3
+        plan["same_filename"] = rng.random() < 0.3  # videos embedded in one package file share its file name
         if plan["pred"] == "topdown" and via == "make_pipeline":
             pass
     # faults
@@ -133,6 +136,9 @@ def gen_plan(rng, index, tier):
             else:
                 f["how"] = rng.choice(["rank2", "rank1"])
             plan["faults"].append(f)
+    if prov == "video" and via == "direct" and plan["end"] is not None and n > 0 and not forced and rng.random() < 0.06:
+        # a video that cannot be opened at all (missing file): no shape, every read fails - the stream must still be closed
+        plan["faults"] = [f for f in plan["faults"] if f["kind"] == "stall"] + [{"kind": "unopenable"}]
     return plan
 
 
@@ -171,7 +177,7 @@ def shrink(plan):
                 p["start"] = min(p["start"], n2)
             if p["end"] is not None:
                 p["end"] = min(p["end"], n2 + 2)
-            p["faults"] = [f for f in p["faults"] if f["kind"] == "stall" or f["at"] < n2]
+            p["faults"] = [f for f in p["faults"] if f["kind"] in ("stall", "unopenable") or f["at"] < n2]
             if len(p["faults"]) == len(plan["faults"]):
                 yield p
     if plan["start"] not in (None, 0):
@@ -185,7 +191,7 @@ def shrink(plan):
     if plan["cap"] != 1:
         yield mod(cap=1)
     for i, f in enumerate(plan["faults"]):
-        if f["kind"] != "stall" and f["at"] > 0:
+        if f["kind"] not in ("stall", "unopenable") and f["at"] > 0:
             p = copy.deepcopy(plan)
             p["faults"][i]["at"] = f["at"] - 1
             yield p
@@ -204,13 +210,28 @@ def shrink(plan):
 
 
 # ----------------------------------------------------------------- world
+class UnopenableVideo(media.FakeVideo):
+    """What sleap_io gives for a missing file: no shape, and every read raises."""
+
+    @property
+    def shape(self):
+        return None
+
+    def __getitem__(self, idx):
+        if self.on_read is not None:
+            self.on_read.sim.yield_point("read", int(idx))
+            self.on_read.fired["unopenable"] = self.on_read.fired.get("unopenable", 0) + 1
+        raise FileNotFoundError("injected: video file cannot be opened")
+
+
 def _frames(plan):
     """Ground truth stream: list of dict(video_idx, frame_idx, H, W, ident)."""
     n, H, W, C = plan["n"], plan["H"], plan["W"], plan["channels"]
     truth = []
     if plan["provider"] == "video":
         for i in range(n):
-            truth.append({"v": 0, "f": i, "H": H, "W": W, "ident": _ident_value(i), "key": i})
+            h, w = (H + 2, W + 1) if (plan["two_sizes"] and i % 2) else (H, W)
+            truth.append({"v": 0, "f": i, "H": h, "W": w, "ident": _ident_value(i), "key": i})
     else:
         r = random.Random(plan.get("shuffle_seed", 0))
         fidx = list(range(0, 3 * n + 3))
@@ -228,10 +249,10 @@ def _build(plan, sim, hook):
     n = plan["n"]
     labels = video = None
     if plan["provider"] == "video":
-        arr = np.zeros((n, plan["H"], plan["W"], C), dtype=np.uint8)
-        for t in truth:
-            arr[t["f"]] = t["ident"]
+        arr = [np.full((t["H"], t["W"], C), t["ident"], dtype=np.uint8) for t in truth]
         video = media.FakeVideo(arr, on_read=hook)
+        if any(f["kind"] == "unopenable" for f in plan["faults"]):
+            video = UnopenableVideo(arr, on_read=hook)
     else:
         nvid = 2 if plan["two_sizes"] else 1
         vids = []
@@ -244,7 +265,7 @@ def _build(plan, sim, hook):
             arr = np.zeros((nfr, h, w, C), dtype=np.uint8)
             for f, t in per_video[v].items():
                 arr[f] = t["ident"]
-            vids.append(media.make_mem_video(arr, name=f"mem{v}.mp4", on_read=hook))
+            vids.append(media.make_mem_video(arr, name="project.pkg.slp" if plan.get("same_filename") else f"mem{v}.mp4", on_read=hook))
         sk = media.make_skeleton(2)
         r = random.Random(plan.get("shuffle_seed", 0) + 1)
         spec = []
@@ -352,6 +373,8 @@ def _expected(plan, truth):
     else:
         seq = list(range(n))
     fault_at = None
+    if any(f["kind"] == "unopenable" for f in plan["faults"]) and seq:
+        fault_at = seq[0]
     for f in plan["faults"]:
         if f["kind"] in ("read_error", "bad_frame") and f["at"] in seq:
             fault_at = f["at"] if fault_at is None else min(fault_at, f["at"])
@@ -479,6 +502,7 @@ def execute(plan, choices=None):
         "range_past_end": int(cut == "past_end"),
         "fault_cut_stream": int(cut == "fault"),
         "two_video_sizes": int(plan["two_sizes"] and delivered > 1),
+        "videos_share_file_name": int(bool(plan.get("same_filename")) and plan["two_sizes"] and delivered > 1),
         "fine_grained_run": int(plan["sched"].get("fine", False)),
         "via_make_pipeline": int(plan["via"] != "direct"),
         "fair_mode_entered": int(sim.fair_mode),
